@@ -48,6 +48,10 @@ pub fn prelude_for(s: &ASchema, opts: &Opts) -> String {
         let ident = if opts.normalization_rust { heck::ToUpperCamelCase::to_upper_camel_case(sc.as_str()) } else { sc.clone() };
         p.push_str(&format!("    pub type {} = String;\n", ident));
     }
+    // derive delivery form: the struct the derive is written on is the user's
+    if let (true, Some(ident)) = (opts.derive_mode, &opts.struct_ident) {
+        p.push_str(&format!("    pub struct {};\n", ident));
+    }
     p
 }
 
@@ -85,6 +89,52 @@ pub fn build_universe(
     build_universe_with(rep, rng, name, n, sk, ok, opts_for, vec![])
 }
 
+fn must_reject_corpus() -> Vec<(ASchema, ADoc)> {
+    let f = |n: &str, t: ATy| AField { name: n.into(), ty: t, dep: None };
+    let obj = |name: &str, implements: Vec<&str>, fields: Vec<AField>| AType::Object { name: name.into(), implements: implements.into_iter().map(String::from).collect(), fields, ext_fields: vec![] };
+    let fld = |n: &str, sub: Vec<ASel>| ASel::Field { alias: None, name: n.into(), sub };
+    let schema = ASchema {
+        types: vec![
+            AType::Interface { name: "Named".into(), fields: vec![f("name", ATy::named("String"))] },
+            obj("Person", vec!["Named"], vec![f("name", ATy::named("String")), f("age", ATy::named("Int"))]),
+            obj("Robot", vec!["Named"], vec![f("name", ATy::named("String")), f("model", ATy::named("String"))]),
+            AType::Union { name: "Thing".into(), members: vec!["Person".into(), "Robot".into()] },
+            obj("Query", vec![], vec![f("named", ATy::named("Named")), f("things", ATy::List(Box::new(ATy::NonNull(Box::new(ATy::named("Thing"))))))]),
+        ],
+        query: Some("Query".into()),
+        mutation: None,
+        subscription: None,
+    };
+    let op = |name: &str, sels: Vec<ASel>| AOp { kind: "query", name: name.into(), vars: vec![], sels };
+    vec![
+        (schema.clone(), ADoc { ops: vec![op("TypenameOnlyInSpread", vec![fld("named", vec![fld("name", vec![]), ASel::Spread { name: "OnPerson".into() }])])],
+            frags: vec![AFrag { name: "OnPerson".into(), on: "Person".into(), sels: vec![ASel::Typename, fld("age", vec![])] }] }),
+        (schema.clone(), ADoc { ops: vec![op("TypenameOnlyInInline", vec![fld("things", vec![ASel::Inline { on: "Robot".into(), sub: vec![ASel::Typename, fld("model", vec![])] }])])], frags: vec![] }),
+        (schema, ADoc { ops: vec![op("NoTypename", vec![fld("named", vec![fld("name", vec![])])])], frags: vec![] }),
+    ]
+}
+
+/// Deliver the case the way the derive macro does: the options are written as the text of a `#[graphql(...)]` attribute
+/// (see `vcore::derive_front::render_attr`) on a struct named after the operation; `Opts::derive_attr` makes the
+/// implementation's options come from the derive's own option builder. Returns false when not applicable.
+pub fn deliver_by_derive(opts: &mut Opts, op_name: &str, qtext: &str, ctx: &CaseCtx, tag: usize, rng: &mut Rng) -> bool {
+    use heck::ToUpperCamelCase;
+    if vcore::derive_front::tie_broken().is_some() {
+        return false;
+    }
+    let ident = if opts.normalization_rust { op_name.to_upper_camel_case() } else { op_name.to_string() };
+    let qfile = ctx.work.join(format!("derive_query_{}_{}.graphql", tag, rng.below(1_000_000)));
+    if syn::parse_str::<syn::Ident>(&ident).is_err() || std::fs::write(&qfile, qtext).is_err() {
+        return false;
+    }
+    opts.derive_mode = true;
+    opts.struct_ident = Some(ident.clone());
+    opts.operation_name = Some(ident);
+    opts.query_file = Some(qfile.to_string_lossy().into_owned());
+    opts.derive_attr = Some(vcore::derive_front::render_attr(opts, rng));
+    true
+}
+
 /// `corpus`: fixed (schema, document) cases that run first (witnesses of known findings, past failures)
 #[allow(clippy::too_many_arguments)]
 pub fn build_universe_with(
@@ -101,19 +151,48 @@ pub fn build_universe_with(
     let mut cases = Vec::new();
     let mut codes = Vec::new();
     let mut attempts = 0;
+    // documents the generator must reject (no `__typename` at an abstract position except inside a selection on ONE
+    // possible type): dropped when rejected; if one is accepted it is an accepted operation and its responses are checked
+    let mut corpus = corpus;
+    corpus.extend(must_reject_corpus());
     let mut corpus = corpus.into_iter();
     let total = n + corpus.len();
     while cases.len() < total && attempts < total * 3 {
         attempts += 1;
         let mut from_corpus = false;
-        let (schema, doc) = match corpus.next() {
+        let mut typename_edited = false;
+        let (schema, mut doc) = match corpus.next() {
             Some(x) => {
                 from_corpus = true;
                 x
             }
             None => {
                 let schema = random_schema(rng, sk);
-                let doc = random_doc(rng, &schema, ok);
+                let mut doc = random_doc(rng, &schema, ok);
+                // A tenth of the random documents lose the `__typename` the generator demands at abstract positions
+                // (removed altogether, or kept only inside a fragment / inline fragment on one possible type). Such a
+                // document is still executable and its responses are well defined (CollectFields), but the generated
+                // tagged enums could not read them, which is why the generator must reject it; if it is accepted all
+                // the same, it is an accepted operation like any other and its conforming responses are checked.
+                if rng.chance(15) {
+                    use vcore::gen::edits::{apply, positions, Edit};
+                    let edit = *rng.pick(&[Edit::MissingTypename, Edit::TypenameOnlyInVariantSpread, Edit::TypenameOnlyInVariantInline]);
+                    let ps = positions(&schema, &doc);
+                    let mut applied = false;
+                    if !ps.is_empty() {
+                        let start = rng.range(0, ps.len() - 1);
+                        for k in 0..ps.len() {
+                            let pos = &ps[(start + k) % ps.len()];
+                            if let Some((_, d, _)) = apply(&schema, &doc, edit, Some(pos), 0, rng.range(0, 7)) {
+                                doc = d;
+                                applied = true;
+                                break;
+                            }
+                        }
+                    }
+                    rep.count(if applied { "document:typename-removed" } else { "document:typename-removal-not-applicable" });
+                    typename_edited = applied;
+                }
                 (schema, doc)
             }
         };
@@ -141,6 +220,19 @@ pub fn build_universe_with(
         let sdl = if as_json { serde_json::to_string(&schema.to_json(&RenderKnobs { json_wrapped: rng.chance(50), ..knobs.clone() })).unwrap() } else { schema.to_sdl(&knobs) };
         rep.count(if as_json { "schema-format:json" } else { "schema-format:sdl" });
         let qtext = doc.render();
+        // An eighth of the random cases are delivered the way the derive macro delivers them: the options are written
+        // as the text of a `#[graphql(...)]` attribute (keys in random positions, booleans spelled out, flags next
+        // to `key = value` pairs) and the implementation's options come from the derive's own option builder applied to
+        // that text; model and oracles are told the options that were written.
+        if !from_corpus && !doc.ops.is_empty() && rng.chance(12) {
+            let op = doc.ops[rng.range(0, doc.ops.len() - 1)].clone();
+            if deliver_by_derive(&mut opts, &op.name, &qtext, &ctx, cases.len(), rng) {
+                rep.count("delivery:derive-attribute");
+                // the query text keeps every operation; the derive generates the one named by the struct, and only
+                // that one is followed up by the harness
+                doc.ops = vec![op];
+            }
+        }
         let res = ctx.run(&sdl, as_json, &qtext, &opts);
         let lenient = res.lenient;
         if !res.diffs.is_empty() {
@@ -153,6 +245,9 @@ pub fn build_universe_with(
                 continue;
             }
         };
+        if typename_edited {
+            rep.count("document:typename-removed-but-accepted");
+        }
         let id = cases.len();
         let ops = modules
             .iter()
